@@ -145,6 +145,23 @@ AcceptSend ==
     /\ nacc' = nacc + 1
     /\ UNCHANGED <<cl, ab, lost>>
 
+\* the same as one composite step, as the rig executes it when it does NOT let the connecting application thread run
+\* in between: accept(), send() of as many messages as the client's receive window takes, all resulting frames handed to A
+\* back to back (CC, then the I PDUs, while connect() has not woken up yet), then connect() returns and the client reads
+\* what arrived: `got` of the `sent` messages.  NoEarlyLoss generalised: got = sent = RW announced by the client.
+Greeting(sent, got) ==
+    /\ lst.st = "LISTEN" /\ lst.rq # <<>> /\ nacc < MaxAcc /\ ab = <<>> /\ ba = <<>>
+    /\ LET p == Head(lst.rq) c == ClientOf(p.s) IN
+       /\ cl[c].st = "CONNECT"
+       /\ sent = p.rw /\ got = sent
+       /\ lst' = [lst EXCEPT !.rq = Tail(@)]
+       /\ acc' = Append(acc, [st |-> "ESTABLISHED", peer |-> p.s, smiu |-> Min(p.miu, LinkMiuB), swin |-> p.rw,
+                              rmiu |-> lst.rmiu, rw |-> lst.rw])
+       /\ cl' = [cl EXCEPT ![c] = [@ EXCEPT !.st = "ESTABLISHED", !.peer = SapB, !.smiu = Min(lst.rmiu, LinkMiuA),
+                                           !.swin = lst.rw, !.res = "OK"]]
+    /\ nacc' = nacc + 1
+    /\ UNCHANGED <<ab, ba, lost>>
+
 CloseAcc(i) ==
     /\ i \in DOMAIN acc /\ acc[i].st = "ESTABLISHED"
     /\ acc' = [acc EXCEPT ![i].st = "DISCONNECT"]
@@ -157,6 +174,7 @@ RecvNoneAcc(i) ==
 
 Next == \/ \E c \in Clients : Connect(c) \/ CloseClient(c) \/ RecvNone(c)
         \/ DeliverA \/ DeliverB \/ Accept \/ AcceptSend
+        \/ \E n \in RWs : Greeting(n, n)
         \/ \E i \in 1..MaxAcc : CloseAcc(i) \/ RecvNoneAcc(i)
 Fair == WF_vars(DeliverA) /\ WF_vars(DeliverB) /\ WF_vars(Accept)
         /\ \A c \in Clients : WF_vars(RecvNone(c))
